@@ -285,6 +285,13 @@ impl<'tcx> Ctx<'tcx> {
             }
             _ => {}
         }
+        if let mir::Const::Ty(_, ct) = c.const_ {
+            // const generic parameter (`N` in `fn f<const N: usize>`): export its name so that the analyses can
+            // treat it as one symbolic value instead of an unknown constant per occurrence
+            if let ty::ConstKind::Param(p) = ct.kind() {
+                let _ = write!(o, ",\"param\":{}", jstr(&p.name.to_string()));
+            }
+        }
         if let mir::Const::Unevaluated(u, _) = c.const_ {
             let _ = write!(o, ",\"def\":{}", jstr(&self.name(u.def)));
             if let Some(p) = u.promoted {
